@@ -630,6 +630,22 @@ def method(ex, base, attr, args, st, node):
             return base
     if isinstance(base, TupV) and attr == "copy":
         return TupV(list(base.items), base.kind)
+    if isinstance(base, TupV) and attr == "index" and len(args) == 1:
+        # tuple.index(x) where membership is decided at compile time (constant labels): the position, or ValueError
+        hits = []
+        for i, it in enumerate(base.items):
+            if E._same_static(it, args[0]):
+                hits.append(i)
+            elif not (_is_static_const(it) and _is_static_const(args[0])):
+                raise E.Unsupported(f"tuple.index on values that are not compile-time constants line {node.lineno}")
+        if hits:
+            return E.I(z3.IntVal(hits[0]))
+        s2 = st.copy()
+        s2.trail.append((node.lineno, "raises ValueError"))
+        if not hasattr(ex, "pending_raises"):
+            ex.pending_raises = []
+        ex.pending_raises.append(("raise", s2, ("ValueError", node.lineno)))
+        raise E.RaisedInExpr()
     if isinstance(base, ObjV) and attr == "operand" and len(args) == 1 and isinstance(args[0], StrV) and args[0].s is not None:
         return ex.obj_field(base, args[0].s, node)
     if isinstance(base, ObjV):
@@ -640,6 +656,14 @@ def method(ex, base, attr, args, st, node):
             ex.assumed.add(f"{base.cls}.{attr}: {(m.__doc__ or '').strip()}")
             return E.wrap_any(m(ex, st, base, args, kwargs, node))
     raise E.Unsupported(f"method .{attr} on {base!r} line {node.lineno}")
+
+
+def _is_static_const(v):
+    if isinstance(v, StrV):
+        return v.s is not None
+    if isinstance(v, Opt):
+        return v.n is True or (v.n is False and z3.is_int_value(z3.simplify(S._i(v.v))))
+    return False
 
 
 def inline_local(ex, fn, node, st):
